@@ -1,5 +1,6 @@
 /-
-Driver side of the canonical-document checks (C03): `canon <seed> <size>` generates a `Doc` from a
+Driver side of the canonical-document checks (C03): `canon <seed> <size>` (first-stage class, also the
+document source of C07/C17) and `canon2 <seed> <size>` (whole class: + tables, ...) generate a `Doc` from a
 PRNG inside the driver, so that the `write`, `toTree` and `refHtml` executed are the proved
 definitions, and answers `<ok> <hex write d> <hex refHtml d> <tree wire of toTree d>`.
 `Wire.print` is the inverse of `Wire.tree?` (Comrak/Ast.lean).
@@ -7,6 +8,7 @@ definitions, and answers `<ok> <hex write d> <hex refHtml d> <tree wire of toTre
 import Comrak.Drv.Util
 import Comrak.Canon.Ok
 import Comrak.Canon.Ref
+import Comrak.Canon.Pos
 namespace Comrak.Wire
 open Comrak Bytes
 
@@ -306,12 +308,58 @@ def genMarker : Gen Marker := do
     pick [0, 2, 3, 7, 9, 10, 42, 99, 100, 999, 12345, 999999990, 123456789]
   pure { ordered := ordered, bullet := ← pick [0x2D, 0x2B, 0x2A], start := start, paren := ← chance 1 3, tight := ← chance 1 2 }
 
+/-- One table cell: a line of inline content without breaks (sometimes empty). -/
+def genCell (fuel : Nat) : Gen Inls := do
+  if ← chance 1 8 then pure .nil else
+  let c ← genInls (min fuel 2 + 1) false false false 0x20 0x20 false
+  pure (if cellWf c then c else .cons (.text [.ch 0x63]) .nil)
+
+def genCells (fuel : Nat) : Nat → Gen (List Inls)
+  | 0 => pure []
+  | n + 1 => do let c ← genCell fuel; let r ← genCells fuel n; pure (c :: r)
+
+def genRows (fuel ncols : Nat) : Nat → Gen (List (List Inls))
+  | 0 => pure []
+  | n + 1 => do let c ← genCells fuel ncols; let r ← genRows fuel ncols n; pure (c :: r)
+
+def genAligns : Nat → Gen (List Align)
+  | 0 => pure []
+  | n + 1 => do let a ← pick [Align.none, .left, .right, .center]; let r ← genAligns n; pure (a :: r)
+
+def genTable (fuel : Nat) : Gen Blk := do
+  let ncols := 1 + (← below 4)
+  let nrows ← below 4
+  pure (.table (← genAligns ncols) (← genCells fuel ncols) (← genRows fuel ncols nrows))
+
+def htmlAlpha : Bytes := "abcdefghijklmnopqrstuvwxyz012    <>/=\"'*_`[]()&#-.!|:;".toUTF8.toList
+
+def genHtmlLines : Nat → Gen (List Bytes)
+  | 0 => pure []
+  | n + 1 => do
+    let l ← genBytes htmlAlpha (← below 12)
+    let r ← genHtmlLines n
+    pure (([← pick (alnums ++ "<&*_`[".toUTF8.toList)] ++ l) :: r)
+
+/-- An HTML block of start condition 6: `<tag`, `</tag`, then `>`, ` attr>`, `/>`, or nothing. -/
+def genHtmlb : Gen Blk := do
+  let tag ← pick html6Tags
+  let closing ← chance 1 4
+  let tail ← pick ["".toUTF8.toList, ">".toUTF8.toList, ">".toUTF8.toList, " class=\"a b\">".toUTF8.toList, "/>".toUTF8.toList,
+                   " id=x>".toUTF8.toList, ">*not emphasis*".toUTF8.toList, " ".toUTF8.toList]
+  let more ← genHtmlLines (← below 3)
+  pure (.htmlb (([0x3C] ++ (if closing then [0x2F] else []) ++ tag ++ tail) :: more))
+
 mutual
-/-- A block that satisfies `Blk.wf` in the given context (fallback: `___`, valid anywhere). -/
-def genBlk : Nat → Bool → UInt8 → Nat → Prev → Gen Blk
-  | 0, _, _, _, _ => pure (.hr 0x5F 3)
-  | fuel + 1, tight, bullet, idx, prevB => do
+/-- A block that satisfies `Blk.wf` in the given context (fallback: `___`, valid anywhere).
+    `ext`: also the constructs of the GFM extensions (tables); with `ext = false` the random stream
+    and the documents are those of the first-stage class (the `canon` command, used by C07/C17). -/
+def genBlk : Bool → Nat → Bool → UInt8 → Nat → Prev → Gen Blk
+  | _, 0, _, _, _, _ => pure (.hr 0x5F 3)
+  | ext, fuel + 1, tight, bullet, idx, prevB => do
     let attempt : Gen Blk := do
+      let x ← if ext then below 100 else pure 100
+      if x < 14 then genTable fuel else
+      if x < 21 then genHtmlb else
       let k ← below 100
       if k < 30 then pure (.para (← genInls (min fuel 3 + 1) false false true 0x0A 0x0A false))
       else if k < 40 then pure (.heading (1 + (← below 6)) (← genInls (min fuel 3 + 1) false false false 0x20 0x0A false))
@@ -332,10 +380,10 @@ def genBlk : Nat → Bool → UInt8 → Nat → Prev → Gen Blk
         let info := if ← chance 1 3 then [] else info0
         pure (.fence (← pick [0x60, 0x7E]) (3 + (← below 3)) info (← genLines n))
       else if fuel == 0 then pure (.para (← genInls 1 false false true 0x0A 0x0A false))
-      else if k < 75 then pure (.quote (← genBlks fuel false 0 0 .none (1 + (← below 3))))
+      else if k < 75 then pure (.quote (← genBlks ext fuel false 0 0 .none (1 + (← below 3))))
       else
         let m ← genMarker
-        pure (.list m (← genItems fuel m (1 + (← below 3))))
+        pure (.list m (← genItems ext fuel m (1 + (← below 3))))
     let mut res : Blk := .hr 0x5F 3
     let mut found := false
     for _ in [0:6] do
@@ -345,23 +393,125 @@ def genBlk : Nat → Bool → UInt8 → Nat → Prev → Gen Blk
           res := c
           found := true
     pure res
-def genBlks : Nat → Bool → UInt8 → Nat → Prev → Nat → Gen Blks
-  | 0, _, _, _, _, _ => pure .nil
-  | _, _, _, _, _, 0 => pure .nil
-  | fuel + 1, tight, bullet, idx, prevB, n + 1 => do
-    let b ← genBlk fuel tight bullet idx prevB
-    let r ← genBlks fuel tight bullet (idx + 1) b.asPrev n
+def genBlks : Bool → Nat → Bool → UInt8 → Nat → Prev → Nat → Gen Blks
+  | _, 0, _, _, _, _, _ => pure .nil
+  | _, _, _, _, _, _, 0 => pure .nil
+  | ext, fuel + 1, tight, bullet, idx, prevB, n + 1 => do
+    let b ← genBlk ext fuel tight bullet idx prevB
+    -- in a tight item nothing can follow an HTML block (only a blank line ends it)
+    let r ← if tight && b.isHtml then pure Blks.nil else genBlks ext fuel tight bullet (idx + 1) b.asPrev n
     pure (.cons b r)
-def genItems : Nat → Marker → Nat → Gen Items
-  | 0, _, _ => pure .nil
-  | _, _, 0 => pure .nil
-  | fuel + 1, m, n + 1 => do
+def genItems : Bool → Nat → Marker → Nat → Gen Items
+  | _, 0, _, _ => pure .nil
+  | _, _, _, 0 => pure .nil
+  | ext, fuel + 1, m, n + 1 => do
     let k ← below 3
-    let bs ← genBlks fuel m.tight (if m.ordered then 0 else m.bullet) 0 .none (1 + (if fuel == 0 then 0 else k))
+    let bs ← genBlks ext fuel m.tight (if m.ordered then 0 else m.bullet) 0 .none (1 + (if fuel == 0 then 0 else k))
     let bs := if bs.isNil then Blks.cons (.hr 0x5F 3) .nil else bs
-    let r ← genItems fuel m n
-    pure (.cons bs r)
+    let t : Task ← if ext && bs.startsPara then pick [Task.no, .no, .no, .unchecked, .checked 0x78, .checked 0x58] else pure Task.no
+    let r ← genItems ext fuel m n
+    pure (.cons t bs r)
 end
+
+/-! ### Footnotes: a second pass over the generated blocks puts references `[^name]` at random
+places (outside link text and image descriptions) and numbers them the way comrak's footnote pass
+does, in document order. -/
+
+structure SpS where
+  rng : UInt64
+  /-- the notes referenced so far, with their reference counts, in the order of first reference -/
+  seen : List (Bytes × Nat) := []
+  /-- names to choose from -/
+  pool : List Bytes := []
+
+def SpS.coin (s : SpS) (num den : Nat) : Bool × SpS :=
+  let (x, r) := nextU s.rng
+  (decide ((x >>> 11).toNat % den < num), { s with rng := r })
+
+/-- A reference to a name of the pool, numbered. -/
+def SpS.ref (s : SpS) : Inl × SpS :=
+  let (x, r) := nextU s.rng
+  let name := s.pool.getD ((x >>> 11).toNat % s.pool.length) [0x31]
+  match s.seen.findIdx? (fun p => p.1 == name) with
+  | some i =>
+    let c := (s.seen.getD i ([], 0)).2
+    (.fnref name (c + 1) (i + 1), { s with rng := r, seen := s.seen.set i (name, c + 1) })
+  | none => (.fnref name 1 (s.seen.length + 1), { s with rng := r, seen := s.seen ++ [(name, 1)] })
+
+mutual
+def _root_.Comrak.Canon.Inl.sprinkle (s : SpS) : Inl → Inl × SpS
+  | .emph us cs => let (c, s) := cs.sprinkle s false; (.emph us c, s)
+  | .strong us cs => let (c, s) := cs.sprinkle s false; (.strong us c, s)
+  | .strike cs => let (c, s) := cs.sprinkle s false; (.strike c, s)
+  | i => (i, s)
+/-- `atEnd`: a reference may follow the last inline (not inside emphasis, whose content must end
+    with a letter or digit). -/
+def _root_.Comrak.Canon.Inls.sprinkle (s : SpS) (atEnd : Bool) : Inls → Inls × SpS
+  | .nil => (.nil, s)
+  | .cons i r =>
+    let (i', s) := i.sprinkle s
+    let (b, s) := s.coin 1 7
+    let fits := (atEnd || !r.isNil) && i'.lastB != 0x21 && !(r.firstB 0x0A == 0x5B || r.firstB 0x0A == 0x28 || r.firstB 0x0A == 0x3A)
+    if b && fits then
+      let (f, s) := s.ref
+      let (r', s) := r.sprinkle s atEnd
+      (.cons i' (.cons f r'), s)
+    else
+      let (r', s) := r.sprinkle s atEnd
+      (.cons i' r', s)
+end
+
+def sprinkleCells (s : SpS) : List Inls → List Inls × SpS
+  | [] => ([], s)
+  | c :: r => let (c', s) := c.sprinkle s true; let (r', s) := sprinkleCells s r; (c' :: r', s)
+
+def sprinkleRows (s : SpS) : List (List Inls) → List (List Inls) × SpS
+  | [] => ([], s)
+  | c :: r => let (c', s) := sprinkleCells s c; let (r', s) := sprinkleRows s r; (c' :: r', s)
+
+mutual
+def _root_.Comrak.Canon.Blk.sprinkle (s : SpS) : Blk → Blk × SpS
+  | .para is => let (c, s) := is.sprinkle s true; (.para c, s)
+  | .heading l is => let (c, s) := is.sprinkle s true; (.heading l c, s)
+  | .setext l n is => let (c, s) := is.sprinkle s true; (.setext l n c, s)
+  | .quote bs => let (c, s) := bs.sprinkle s; (.quote c, s)
+  | .list m items => let (c, s) := items.sprinkle s; (.list m c, s)
+  | .table al h rows => let (h', s) := sprinkleCells s h; let (r', s) := sprinkleRows s rows; (.table al h' r', s)
+  | b => (b, s)
+def _root_.Comrak.Canon.Blks.sprinkle (s : SpS) : Blks → Blks × SpS
+  | .nil => (.nil, s)
+  | .cons b r => let (b', s) := b.sprinkle s; let (r', s) := r.sprinkle s; (.cons b' r', s)
+def _root_.Comrak.Canon.Items.sprinkle (s : SpS) : Items → Items × SpS
+  | .nil => (.nil, s)
+  | .cons t bs r => let (b', s) := bs.sprinkle s; let (r', s) := r.sprinkle s; (.cons t b' r', s)
+end
+
+/-- 1..4 names, distinct up to letter case. -/
+def genPool : Nat → Gen (List Bytes)
+  | 0 => pure []
+  | n + 1 => do
+    let nm ← genBytes alnums (1 + (← below 4))
+    let r ← genPool n
+    pure (if (r.map lowerB).contains (lowerB nm) then r else nm :: r)
+
+def genNoteBody : Gen Inls := do
+  let c ← genInls 3 false false false 0x0A 0x0A false
+  pure (if c.wf false false false 0x0A 0x0A true 0 && c.fnrefs.isEmpty then c else .cons (.text [.ch 0x6E]) .nil)
+
+def genNotes : List (Bytes × Nat) → Gen (List Note)
+  | [] => pure []
+  | (nm, total) :: r => do
+    let b ← genNoteBody
+    let rest ← genNotes r
+    pure ({ name := nm, total := total, body := b } :: rest)
+
+/-- A permutation of `0..n-1`: identity, reversal or a rotation. -/
+def genOrder (n : Nat) : Gen (List Nat) := do
+  let k ← below 3
+  let ids := List.range n
+  if k == 0 then pure ids
+  else if k == 1 then pure ids.reverse
+  else let j ← below (n + 1); pure (ids.drop j ++ ids.take j)
 
 /-- Shadowed definitions: for some used labels a later definition with another destination (it
     must lose), and some definitions nothing refers to. -/
@@ -377,29 +527,53 @@ def genShadow : List RefDef → Gen (List RefDef)
       pure ({ label := ← genCaseVariant d.label, url := ← genUrl a, title := ← genTitle, angle := a, before := false } :: rest)
     else pure rest
 
-def genDocTry (seed size salt : Nat) : Doc :=
+/-- References sprinkled over the blocks, then the definitions (for half of the documents). -/
+def genFootnotes (bs : Blks) : Gen (Blks × List Note × List Nat × List Note) := do
+  if ← chance 1 2 then pure (bs, [], [], []) else
+  let pool ← genPool (1 + (← below 4))
+  let r0 ← nextU
+  let sp : Blks × SpS := if pool.isEmpty then (bs, { rng := 0 }) else bs.sprinkle { rng := r0, pool := pool }
+  let notes ← genNotes sp.2.seen
+  let order ← genOrder notes.length
+  let u ← chance 1 4
+  let nm ← genBytes alnums 6
+  let ub ← genNoteBody
+  let unused : List Note := if u then [{ name := [0x75] ++ nm, total := 0, body := ub }] else []
+  pure (sp.1, notes, order, unused)
+
+def genDocTry (ext : Bool) (seed size salt : Nat) : Doc :=
   let fuel := 2 + min 6 (size / 2)
   let n := 1 + size % 4 + size / 6
   let g : Gen Doc := do
-    let bs ← genBlks fuel false 0 0 .none n
-    let sh ← genShadow bs.defs
-    let d : Doc := { blocks := bs, shadow := sh }
-    pure (if d.ok then d else { blocks := bs, shadow := [] })
+    let bs ← genBlks ext fuel false 0 0 .none n
+    -- footnotes (whole class only; no random draw otherwise, so that `canon` keeps its documents)
+    let fx ← if ext then genFootnotes bs else pure (bs, [], [], [])
+    let (bs2, notes, order, unused) := fx
+    let sh ← genShadow (bs2.defs ++ notes.flatMap fun n => n.body.defs)
+    let d : Doc := { blocks := bs2, shadow := sh, notes := notes, noteOrder := order, unused := unused }
+    let d1 : Doc := { blocks := bs2, shadow := [], notes := notes, noteOrder := order, unused := unused }
+    let d2 : Doc := { blocks := bs, shadow := [] }
+    pure (if d.ok then d else if d1.ok then d1 else d2)
   g.run' (seedOf (seed * 64 + size + salt * 1000003)) |> Id.run
 
-def genDoc (seed size : Nat) : Doc :=
+def genDoc (ext : Bool) (seed size : Nat) : Doc :=
   let rec go : Nat → Nat → Doc
     | 0, _ => { blocks := .nil }
-    | k + 1, salt => let d := genDocTry seed size salt; if d.ok then d else go k (salt + 1)
+    | k + 1, salt => let d := genDocTry ext seed size salt; if d.ok then d else go k (salt + 1)
   go 5 0
+
+def answer (ext : Bool) (seed size : String) : Except String String := do
+  let seed ← (seed.toNat?.map Except.ok).getD (.error "bad-seed")
+  let size ← (size.toNat?.map Except.ok).getD (.error "bad-size")
+  let d := genDoc ext seed size
+  -- `canon2` appends the tree with the positions of `Doc.toTreeP` after a `|` token
+  pure (outBool d.ok ++ " " ++ outHex d.write ++ " " ++ outHex d.refHtml ++ " " ++ Wire.print d.toTree ++
+    (if ext then " | " ++ Wire.print d.toTreeP ++ " | " ++ outBool d.posOk else ""))
 
 def handle : Handler := fun cmd args =>
   match cmd, args with
-  | "canon", [seed, size] => some do
-      let seed ← (seed.toNat?.map Except.ok).getD (.error "bad-seed")
-      let size ← (size.toNat?.map Except.ok).getD (.error "bad-size")
-      let d := genDoc seed size
-      pure (outBool d.ok ++ " " ++ outHex d.write ++ " " ++ outHex d.refHtml ++ " " ++ Wire.print d.toTree)
+  | "canon", [seed, size] => some (answer false seed size)
+  | "canon2", [seed, size] => some (answer true seed size)
   | _, _ => none
 
 end Comrak.Drv.Canon
